@@ -39,6 +39,11 @@ def blank_sources():
         out.append((f"arms{k}", f"fn a(x: u32) {{\n    match x {{\n        1 => 2,{gap}        _ => 3,\n    }}\n}}\n"))
         out.append((f"lead{k}", gap + f"fn a() {{}}\n" + gap))
         out.append((f"variants{k}", f"enum E {{\n    A,{gap}    B,\n}}\n"))
+        # a line comment between two items / statements, blank lines before or after it
+        out.append((f"itemscomment{k}", f"fn a() {{}}\n// note\n{gap[1:]}fn b() {{}}\n"))
+        out.append((f"itemscommentb{k}", f"fn a() {{}}{gap}// note\nfn b() {{}}\n"))
+        out.append((f"stmtscomment{k}", f"fn a() {{\n    let x = 1;\n    // note\n{gap[1:]}    let y = 2;\n}}\n"))
+        out.append((f"stmtscommentb{k}", f"fn a() {{\n    let x = 1;{gap}    // note\n    let y = 2;\n}}\n"))
         # leading lines that hold only blanks, before the first token or comment
         out.append((f"leadsp{k}", "\n" * (k % 3) + "  \n" * (1 + k % 2) + "fn a() {}\n"))
         out.append((f"leadtab{k}", "\t\n" + "\n" * (k % 3) + "// c\nfn a() {}\n"))
@@ -101,7 +106,7 @@ def run(tier, seed, replay=None):
                              "want": ["lines"], "_meta": {"name": name, "how": how, "gen": False}})
         for (name, text) in blank_sources():
             for up in (0, 1, 2, 3):
-                for lo in (0, 1):
+                for lo in (0, 1, 2, 3):
                     if lo > up:
                         continue
                     for ht in (False, True):
@@ -128,6 +133,7 @@ def run(tier, seed, replay=None):
             ws = o["ws"]
             wrecs.append({"style": style, "hard_tabs": bool(opts.get("hard_tabs", False)),
                           "upper": int(opts.get("blank_lines_upper_bound", 1)),
+                          "strict": bool(j["_meta"]["gen"]) and "comment" in j["_meta"]["name"],
                           "nonempty": ws["nonempty"], "lead_blank": ws["lead_blank"],
                           "final_nl": ws["final_nl"], "crlf": ws["crlf"], "lf": ws["lf"],
                           "lines": o["lines"]})
